@@ -204,7 +204,7 @@ func (x *VC) ev(e *SExpr, env *SEnv) *Val {
 		}
 		var decls []string
 		for _, qv := range e.Vars {
-			name := "q_" + qv.Name
+			name := "qv$" + qv.Name
 			var v *Val
 			switch qv.Type {
 			case "int":
@@ -1191,7 +1191,8 @@ func (fr *Frame) writeSet(h *ssa.BasicBlock, st *State) (map[string]bool, map[*s
 				env.pkg = x.eng.pkgByPath(c.Pkg)
 			}
 			for _, m := range c.Modifies {
-				for _, cp := range x.resolveModifies(m, env) {
+				sel, _ := splitModAt(m)
+				for _, cp := range x.resolveModifies(sel, env) {
 					comps[cp.Key] = true
 				}
 			}
@@ -1238,7 +1239,8 @@ func (fr *Frame) writeSet(h *ssa.BasicBlock, st *State) (map[string]bool, map[*s
 					}
 					env := &SEnv{x: x, pkg: n.Obj().Pkg()}
 					for _, m := range c.Modifies {
-						for _, cp := range x.resolveModifies(m, env) {
+						sel, _ := splitModAt(m)
+						for _, cp := range x.resolveModifies(sel, env) {
 							comps[cp.Key] = true
 						}
 					}
@@ -1424,6 +1426,15 @@ func (fr *Frame) loopHeader(h *ssa.BasicBlock, st *State, reach string) (*State,
 		}
 	}
 	nreach := x.define(fmt.Sprintf("loop%d_iter", ord), "Bool", reach)
+	// (2b) automatic frame invariant: components outside the contract's modifies clause change only
+	// at objects allocated since function entry (checked again on every back edge)
+	if fr.top && x.c != nil && !x.c.ModAll && !all {
+		for _, k := range fr.autoFrameKeys(keys) {
+			cp := x.comps[k]
+			x.assume(nreach, x.frameCond(cp, x.get(nst, cp), x.get(fr.entrySt, cp), x.get(fr.entrySt, x.allocComp()), nil))
+		}
+		fr.hdrAuto[h] = fr.autoFrameKeys(keys)
+	}
 	// (3) assume the invariant
 	env2 := fr.loopEnv(h, nst)
 	fr.hdrEnv[h] = env2.vars
@@ -1436,6 +1447,39 @@ func (fr *Frame) loopHeader(h *ssa.BasicBlock, st *State, reach string) (*State,
 		fr.hdrDec[h] = d.T
 	}
 	return nst, nreach
+}
+
+// autoFrameKeys: loop-written heap components (indexed by object) that the contract does not list.
+func (fr *Frame) autoFrameKeys(keys []string) []string {
+	x := fr.x
+	allowed := map[string]bool{"alloc": true}
+	env := &SEnv{x: x, pkg: fr.pkgOf()}
+	for _, m := range x.c.Modifies {
+		sel, _ := splitModAt(m)
+		for _, cp := range x.resolveModifies(sel, env) {
+			allowed[cp.Key] = true
+		}
+	}
+	var out []string
+	for _, k := range keys {
+		cp, ok := x.comps[k]
+		if !ok || allowed[k] || cp.Idx != "Int" || strings.HasPrefix(k, "F|strings.Builder|") {
+			continue
+		}
+		out = append(out, k)
+	}
+	return out
+}
+
+func (x *VC) frameCond(cp *Comp, now, was, allocEntry string, except []string) string {
+	if now == was {
+		return "true"
+	}
+	guard := "(select " + allocEntry + " r)"
+	for _, ref := range except {
+		guard = sAnd(guard, sNot(sEq("r", ref)))
+	}
+	return fmt.Sprintf("(forall ((r Int)) (! (=> %s (= (select %s r) (select %s r))) :pattern ((select %s r))))", guard, now, was, now)
 }
 
 func sortStrings(s []string) {
@@ -1534,6 +1578,10 @@ func (fr *Frame) backEdge(from, h *ssa.BasicBlock, st *State) {
 		}
 		x.addObl(fmt.Sprintf("loop%d:invariant-preserved", ord), lbl, pos, reach, c.T)
 	}
+	for _, k := range fr.hdrAuto[h] {
+		cp := x.comps[k]
+		x.addObl(fmt.Sprintf("loop%d:frame-preserved", ord), k, pos, reach, x.frameCond(cp, x.get(st, cp), x.get(fr.entrySt, cp), x.get(fr.entrySt, x.allocComp()), nil))
+	}
 	if ls.Dec != nil {
 		d1 := x.evalSpec(ls.Dec, env)
 		d0 := fr.hdrDec[h]
@@ -1580,8 +1628,19 @@ func (x *VC) checkEnsures(fr *Frame, res []*Val, st *State, reach, pos string) {
 	// frame: components outside `modifies` are unchanged
 	if !x.c.ModAll && !x.c.Lemma {
 		allowed := map[string]bool{"alloc": true}
+		allowedAt := map[string][]string{}
+		oldEnv := env.with(fr.entrySt)
 		for _, m := range x.c.Modifies {
-			for _, cp := range x.resolveModifies(m, env) {
+			sel, at := splitModAt(m)
+			for _, cp := range x.resolveModifies(sel, env) {
+				if at != "" {
+					ae, err := parseSpecExpr(at)
+					if err != nil {
+						x.refuse("modifies %s: %v", m, err)
+					}
+					allowedAt[cp.Key] = append(allowedAt[cp.Key], x.evalSpec(ae, oldEnv).T)
+					continue
+				}
 				allowed[cp.Key] = true
 			}
 		}
@@ -1598,7 +1657,7 @@ func (x *VC) checkEnsures(fr *Frame, res []*Val, st *State, reach, pos string) {
 			// the component may differ only at objects allocated by this call
 			var cond string
 			if cp.Idx == "Int" {
-				cond = fmt.Sprintf("(forall ((r Int)) (! (=> (select %s r) (= (select %s r) (select %s r))) :pattern ((select %s r))))", x.get(fr.entrySt, x.allocComp()), now, was, now)
+				cond = x.frameCond(cp, now, was, x.get(fr.entrySt, x.allocComp()), allowedAt[k])
 			} else {
 				cond = sEq(now, was)
 			}
